@@ -325,10 +325,14 @@ func vcRun(sc *vcScen, module *CachingEvaluator) (res string) {
 					time.Sleep(time.Duration(answerDelay) * time.Millisecond)
 					answerDelay = 0
 				}
-				if v > 0 {
-					r.Reply <- answer
-				}
-				close(r.Reply)
+				// answered from a goroutine of its own: an evaluator that has stopped listening for the answer must
+				// not be able to wedge the storage side (and with it the rest of the scenario)
+				go func() {
+					if v > 0 {
+						r.Reply <- answer
+					}
+					close(r.Reply)
+				}()
 			case <-done:
 				return
 			}
